@@ -1122,7 +1122,7 @@ def compute_image_info_s7 (component_alpha : Int) (flags : Nat) : Nat :=
     flags ||| 512
 
 /-- stage 8 of `compute_image_info`: new value of (code, flags) -/
-def compute_image_info_s8 (width : Int) (height : Int) (repeat_ : Nat) (filter : Nat) (format : Nat) (flags : Nat) : Nat × Nat :=
+def compute_image_info_s8 (width : Int) (height : Int) (repeat_ : Nat) (filter : Nat) (flags : Nat) (format : Nat) : Nat × Nat :=
   if ((((width = 1) ∧ (height = 1)) ∧ (repeat_ ≠ 0)) ∧ (filter ≠ 5)) ∧ (filter ≠ 6) then
     let code := 65536
     (code, flags)
@@ -1165,7 +1165,7 @@ def compute_image_info_s11 (sw3 : Nat) (solid_alpha : Nat) (flags : Nat) (width 
       (code, flags)
   else
     if sw3 = 0 then
-      let j4 := compute_image_info_s8 width height repeat_ filter format flags
+      let j4 := compute_image_info_s8 width height repeat_ filter flags format
       let code := j4.1
       let flags := j4.2
       let flags := compute_image_info_s9 format flags repeat_
@@ -1244,5 +1244,289 @@ def compute_image_info (transform : Nat) (t00 : Int) (t01 : Int) (t02 : Int) (t1
   let flags_out := flags
   let code_out := code
   (flags_out, code_out)
+
+/-- `pixman/pixman.c:compute_transformed_extents` (mixed mode).  Arguments: transform : uint64_t, extents_x1 : int32_t, extents_y1 : int32_t, extents_x2 : int32_t, extents_y2 : int32_t, transformed_x1 : int64_t, transformed_y1 : int64_t, transformed_x2 : int64_t, transformed_y2 : int64_t, pixman_transform_point : extern function.  Result: (return : int32_t, transformed_x1 : int64_t, transformed_y1 : int64_t, transformed_x2 : int64_t, transformed_y2 : int64_t). -/
+def compute_transformed_extents (transform : Nat) (extents_x1 : Int) (extents_y1 : Int) (extents_x2 : Int) (extents_y2 : Int) (transformed_x1 : Int) (transformed_y1 : Int) (transformed_x2 : Int) (transformed_y2 : Int) (pixman_transform_point : Int → Int → Int → Int × Int × Int × Int) : Int × Int × Int × Int × Int :=
+  let x1 := s32 ((s32 (Int.ofNat (((Int.toNat (u32 extents_x1)) <<< 16) % 4294967296))) + 32768)
+  let y1 := s32 ((s32 (Int.ofNat (((Int.toNat (u32 extents_y1)) <<< 16) % 4294967296))) + 32768)
+  let x2 := s32 ((s32 (Int.ofNat (((Int.toNat (u32 extents_x2)) <<< 16) % 4294967296))) - 32768)
+  let y2 := s32 ((s32 (Int.ofNat (((Int.toNat (u32 extents_y2)) <<< 16) % 4294967296))) - 32768)
+  if transform = 0 then
+    let transformed_x1 := x1
+    let transformed_y1 := y1
+    let transformed_x2 := x2
+    let transformed_y2 := y2
+    (1, transformed_x1, transformed_y1, transformed_x2, transformed_y2)
+  else
+    let ty1 := 9223372036854775807
+    let tx1 := ty1
+    let ty2 := (-9223372036854775808)
+    let tx2 := ty2
+    let v_vector_0 := x2
+    let v_vector_1 := y2
+    let v_vector_2 := 65536
+    let r2 := pixman_transform_point v_vector_0 v_vector_1 v_vector_2
+    let c1 := r2.1
+    let v_vector_0 := r2.2.1
+    let v_vector_1 := r2.2.2.1
+    let v_vector_2 := r2.2.2.2
+    if c1 = 0 then
+      (0, transformed_x1, transformed_y1, transformed_x2, transformed_y2)
+    else
+      let tx := v_vector_0
+      let ty := v_vector_1
+      let tx1 := if tx < tx1 then
+          tx
+        else
+          tx1
+      let ty1 := if ty < ty1 then
+          ty
+        else
+          ty1
+      let tx2 := if tx > tx2 then
+          tx
+        else
+          tx2
+      let ty2 := if ty > ty2 then
+          ty
+        else
+          ty2
+      let v_vector_0 := x1
+      let v_vector_1 := y2
+      let v_vector_2 := 65536
+      let r4 := pixman_transform_point v_vector_0 v_vector_1 v_vector_2
+      let c3 := r4.1
+      let v_vector_0 := r4.2.1
+      let v_vector_1 := r4.2.2.1
+      let v_vector_2 := r4.2.2.2
+      if c3 = 0 then
+        (0, transformed_x1, transformed_y1, transformed_x2, transformed_y2)
+      else
+        let tx := v_vector_0
+        let ty := v_vector_1
+        let tx1 := if tx < tx1 then
+            tx
+          else
+            tx1
+        let ty1 := if ty < ty1 then
+            ty
+          else
+            ty1
+        let tx2 := if tx > tx2 then
+            tx
+          else
+            tx2
+        let ty2 := if ty > ty2 then
+            ty
+          else
+            ty2
+        let v_vector_0 := x2
+        let v_vector_1 := y1
+        let v_vector_2 := 65536
+        let r6 := pixman_transform_point v_vector_0 v_vector_1 v_vector_2
+        let c5 := r6.1
+        let v_vector_0 := r6.2.1
+        let v_vector_1 := r6.2.2.1
+        let v_vector_2 := r6.2.2.2
+        if c5 = 0 then
+          (0, transformed_x1, transformed_y1, transformed_x2, transformed_y2)
+        else
+          let tx := v_vector_0
+          let ty := v_vector_1
+          let tx1 := if tx < tx1 then
+              tx
+            else
+              tx1
+          let ty1 := if ty < ty1 then
+              ty
+            else
+              ty1
+          let tx2 := if tx > tx2 then
+              tx
+            else
+              tx2
+          let ty2 := if ty > ty2 then
+              ty
+            else
+              ty2
+          let v_vector_0 := x1
+          let v_vector_1 := y1
+          let v_vector_2 := 65536
+          let r8 := pixman_transform_point v_vector_0 v_vector_1 v_vector_2
+          let c7 := r8.1
+          let v_vector_0 := r8.2.1
+          let v_vector_1 := r8.2.2.1
+          let v_vector_2 := r8.2.2.2
+          if c7 = 0 then
+            (0, transformed_x1, transformed_y1, transformed_x2, transformed_y2)
+          else
+            let tx := v_vector_0
+            let ty := v_vector_1
+            let tx1 := if tx < tx1 then
+                tx
+              else
+                tx1
+            let ty1 := if ty < ty1 then
+                ty
+              else
+                ty1
+            let tx2 := if tx > tx2 then
+                tx
+              else
+                tx2
+            let ty2 := if ty > ty2 then
+                ty
+              else
+                ty2
+            let transformed_x1 := tx1
+            let transformed_y1 := ty1
+            let transformed_x2 := tx2
+            let transformed_y2 := ty2
+            (1, transformed_x1, transformed_y1, transformed_x2, transformed_y2)
+
+/-- stage 1 of `analyze_extent`: new value of (x_off, y_off, width, height, ret3) -/
+def analyze_extent_s1 (sw2 : Nat) (param0 : Int) (param1 : Int) (x_off : Int) (y_off : Int) (width : Int) (height : Int) (ret3 : Int) : Int × Int × Int × Int × Int :=
+  if sw2 = 5 then
+    let x_off := (-1) - ((param0 - 65536) / 2)
+    let y_off := (-1) - ((param1 - 65536) / 2)
+    let width := param0
+    let height := param1
+    (x_off, y_off, width, height, ret3)
+  else
+    if sw2 = 6 then
+      let x_off := (-1) - ((param0 - 65536) / 2)
+      let y_off := (-1) - ((param1 - 65536) / 2)
+      let width := param0
+      let height := param1
+      (x_off, y_off, width, height, ret3)
+    else
+      if ((sw2 = 1) ∨ (sw2 = 2)) ∨ (sw2 = 4) then
+        let x_off := (-32768)
+        let y_off := (-32768)
+        let width := 65536
+        let height := 65536
+        (x_off, y_off, width, height, ret3)
+      else
+        if (sw2 = 0) ∨ (sw2 = 3) then
+          let x_off := (-1)
+          let y_off := (-1)
+          let width := 0
+          let height := 0
+          (x_off, y_off, width, height, ret3)
+        else
+          let ret3 := 1
+          (x_off, y_off, width, height, ret3)
+
+/-- stage 2 of `analyze_extent`: new value of (flags) -/
+def analyze_extent_s2 (transformed_x1 : Int) (transformed_y1 : Int) (transformed_x2 : Int) (img_width : Int) (transformed_y2 : Int) (img_height : Int) (flags : Nat) : Nat :=
+  if (((s32 ((transformed_x1 - 1) / 65536) ≥ 0) ∧ (s32 ((transformed_y1 - 1) / 65536) ≥ 0)) ∧ (s32 ((transformed_x2 - 1) / 65536) < img_width)) ∧ (s32 ((transformed_y2 - 1) / 65536) < img_height) then
+    flags ||| 8388608
+  else
+    flags
+
+/-- stage 3 of `analyze_extent`: new value of (flags) -/
+def analyze_extent_s3 (itype : Nat) (transformed_x1 : Int) (transformed_y1 : Int) (transformed_x2 : Int) (img_width : Int) (transformed_y2 : Int) (img_height : Int) (flags : Nat) : Nat :=
+  if itype = 0 then
+    let flags := analyze_extent_s2 transformed_x1 transformed_y1 transformed_x2 img_width transformed_y2 img_height flags
+    if (((s32 ((transformed_x1 - 32768) / 65536) ≥ 0) ∧ (s32 ((transformed_y1 - 32768) / 65536) ≥ 0)) ∧ (s32 ((transformed_x2 + 32768) / 65536) < img_width)) ∧ (s32 ((transformed_y2 + 32768) / 65536) < img_height) then
+      let flags := flags ||| 16777216
+      flags
+    else
+      flags
+  else
+    flags
+
+/-- join point of `analyze_extent`: the rest of the function after an if/switch both of whose sides may reach it -/
+def analyze_extent_k4 (transform_p : Nat) (extents_x1 : Int) (extents_y1 : Int) (extents_x2 : Int) (extents_y2 : Int) (itype : Nat) (img_width : Int) (img_height : Int) (flags : Nat) (x_off : Int) (y_off : Int) (width : Int) (height : Int) (pixman_transform_point : Int → Int → Int → Int × Int × Int × Int) : Int × Nat :=
+  let r6 := compute_transformed_extents transform_p extents_x1 extents_y1 extents_x2 extents_y2 0 0 0 0 pixman_transform_point
+  let c5 := r6.1
+  let transformed_x1 := r6.2.1
+  let transformed_y1 := r6.2.2.1
+  let transformed_x2 := r6.2.2.2.1
+  let transformed_y2 := r6.2.2.2.2
+  if c5 = 0 then
+    (0, flags)
+  else
+    let flags := analyze_extent_s3 itype transformed_x1 transformed_y1 transformed_x2 img_width transformed_y2 img_height flags
+    let exp_extents_x1 := extents_x1
+    let exp_extents_y1 := extents_y1
+    let exp_extents_x2 := extents_x2
+    let exp_extents_y2 := extents_y2
+    let exp_extents_x1 := s32 (exp_extents_x1 - 1)
+    let exp_extents_y1 := s32 (exp_extents_y1 - 1)
+    let exp_extents_x2 := s32 (exp_extents_x2 + 1)
+    let exp_extents_y2 := s32 (exp_extents_y2 + 1)
+    let r8 := compute_transformed_extents transform_p exp_extents_x1 exp_extents_y1 exp_extents_x2 exp_extents_y2 transformed_x1 transformed_y1 transformed_x2 transformed_y2 pixman_transform_point
+    let c7 := r8.1
+    let transformed_x1 := r8.2.1
+    let transformed_y1 := r8.2.2.1
+    let transformed_x2 := r8.2.2.2.1
+    let transformed_y2 := r8.2.2.2.2
+    if c7 = 0 then
+      (0, flags)
+    else
+      if (((¬(((transformed_x1 + x_off) - 8 ≥ (-2147483648)) ∧ ((transformed_x1 + x_off) - 8 ≤ 2147483647))) ∨ (¬(((transformed_y1 + y_off) - 8 ≥ (-2147483648)) ∧ ((transformed_y1 + y_off) - 8 ≤ 2147483647)))) ∨ (¬((((transformed_x2 + x_off) + 8) + width ≥ (-2147483648)) ∧ (((transformed_x2 + x_off) + 8) + width ≤ 2147483647)))) ∨ (¬((((transformed_y2 + y_off) + 8) + height ≥ (-2147483648)) ∧ (((transformed_y2 + y_off) + 8) + height ≤ 2147483647))) then
+        (0, flags)
+      else
+        (1, flags)
+
+/-- `pixman/pixman.c:analyze_extent` (mixed mode).  Arguments: extents_x1 : int32_t, extents_y1 : int32_t, extents_x2 : int32_t, extents_y2 : int32_t, flags : uint32_t, transform_p : uint64_t, itype : uint32_t, img_width : int32_t, img_height : int32_t, repeat_ : uint32_t, image_flags : uint32_t, filter : uint32_t, param0 : int32_t, param1 : int32_t, pixman_transform_point : extern function.  Result: (return : int32_t, flags : uint32_t). -/
+def analyze_extent (extents_x1 : Int) (extents_y1 : Int) (extents_x2 : Int) (extents_y2 : Int) (flags : Nat) (transform_p : Nat) (itype : Nat) (img_width : Int) (img_height : Int) (repeat_ : Nat) (image_flags : Nat) (filter : Nat) (param0 : Int) (param1 : Int) (pixman_transform_point : Int → Int → Int → Int × Int × Int × Int) : Int × Nat :=
+  if (((¬((extents_x1 - 1 ≥ (-32768)) ∧ (extents_x1 - 1 ≤ 32767))) ∨ (¬((extents_y1 - 1 ≥ (-32768)) ∧ (extents_y1 - 1 ≤ 32767)))) ∨ (¬((extents_x2 + 1 ≥ (-32768)) ∧ (extents_x2 + 1 ≤ 32767)))) ∨ (¬((extents_y2 + 1 ≥ (-32768)) ∧ (extents_y2 + 1 ≤ 32767))) then
+    (0, flags)
+  else
+    if itype = 0 then
+      if (img_width ≥ 32767) ∨ (img_height ≥ 32767) then
+        (0, flags)
+      else
+        if ((img_width ≤ 0) ∨ (img_height ≤ 0)) ∧ (repeat_ ≠ 0) then
+          (0, flags)
+        else
+          if ((((image_flags &&& 1 = 1) ∧ (extents_x1 ≥ 0)) ∧ (extents_y1 ≥ 0)) ∧ (extents_x2 ≤ img_width)) ∧ (extents_y2 ≤ img_height) then
+            let flags := flags ||| 8388608
+            (1, flags)
+          else
+            let sw2 := filter
+            let ret3 := 0
+            let x_off := 0
+            let y_off := 0
+            let width := 0
+            let height := 0
+            let j4 := analyze_extent_s1 sw2 param0 param1 x_off y_off width height ret3
+            let x_off := j4.1
+            let y_off := j4.2.1
+            let width := j4.2.2.1
+            let height := j4.2.2.2.1
+            let ret3 := j4.2.2.2.2
+            if ret3 = 1 then
+              (0, flags)
+            else
+              analyze_extent_k4 transform_p extents_x1 extents_y1 extents_x2 extents_y2 itype img_width img_height flags x_off y_off width height pixman_transform_point
+    else
+      let x_off := 0
+      let y_off := 0
+      let width := 0
+      let height := 0
+      analyze_extent_k4 transform_p extents_x1 extents_y1 extents_x2 extents_y2 itype img_width img_height flags x_off y_off width height pixman_transform_point
+
+/-- `pixman/pixman-glyph.c:pixman_glyph_cache_thaw`, condition of test #0 (mixed mode).  Arguments: freeze_count_after : int32_t, n_glyphs : int32_t, n_tombstones : int32_t. -/
+def glyph_thaw_outer (freeze_count_after : Int) (n_glyphs : Int) (n_tombstones : Int) : Bool :=
+  decide ((freeze_count_after = 0) ∧ (n_glyphs + n_tombstones > 16384))
+
+/-- `pixman/pixman-glyph.c:pixman_glyph_cache_thaw`, condition of test #1 (mixed mode).  Arguments: n_tombstones : int32_t. -/
+def glyph_thaw_dump (n_tombstones : Int) : Bool :=
+  decide (n_tombstones > 16384)
+
+/-- `pixman/pixman-glyph.c:pixman_glyph_cache_thaw`, condition of test #2 (mixed mode).  Arguments: n_glyphs : int32_t. -/
+def glyph_thaw_evict (n_glyphs : Int) : Bool :=
+  decide (n_glyphs > 8192)
+
+/-- `pixman/pixman-glyph.c:pixman_glyph_cache_insert`, condition of test #0 (mixed mode).  Arguments: freeze_count : int32_t. -/
+def glyph_insert_frozen (freeze_count : Int) : Bool :=
+  decide (¬(freeze_count > 0))
+
+/-- `pixman/pixman-glyph.c:pixman_glyph_cache_insert`, condition of test #4 (mixed mode).  Arguments: n_glyphs : int32_t, n_tombstones : int32_t. -/
+def glyph_insert_full (n_glyphs : Int) (n_tombstones : Int) : Bool :=
+  decide (n_glyphs + n_tombstones ≥ 32767)
 
 end Pixman.Gen.CFuncs
